@@ -8,7 +8,7 @@ import (
 
 // the bytes of the fonts of the original six kinds are pinned: Spec JSON recorded in replay files
 // of C01/C13/C17 must keep building the same font
-const compatDigest = "PENDING"
+const compatDigest = "629c9ad02a171f52ef14213dfda3bf325fa98de75d79633d8e58e73210f47239"
 
 func TestCompatDigest(t *testing.T) {
 	s := &seq{i: 11}
